@@ -1,20 +1,49 @@
 (* C01 -- Pub-sub delivery: ordered, exactly once, loss only as documented.
    Only statements; proofs in proofs/ConnProofs.v and proofs/PortProofs.v.  The model is
    model/Conn.v (one connection = per (publisher, subscriber) pair buffer) and model/Port.v (ports).
-   What is PROVED here is proved per connection, for every buffer size, borrow limit, overflow
-   setting and every sequence of operations on an invariant-satisfying connection.  The world-level
-   statements (over every history of API calls of any number of ports) are kept visible as
-   Definitions ..._full : Prop; they are not proved and are evaluated by the tie on every history. *)
-From V Require Import model.Base model.Conn model.Port proofs.ConnProofs proofs.PortProofs proofs.PortInvStep proofs.PortInvRefl.
+   Per connection: for every buffer size, borrow limit, overflow setting and every sequence of
+   operations on an invariant-satisfying connection.  World level (every history of API calls of any
+   number of ports): c01_order_once_full and c01_prefix_history_full are PROVED by induction over the
+   history (proofs/PortInv*.v, proofs/PortOrd*.v); c01_loss_only_reported_full is REFUTED (known
+   findings) and kept with its proved variant. *)
+From V Require Import model.Base model.Conn model.Port proofs.ConnProofs proofs.PortProofs proofs.PortInv proofs.PortInvStep proofs.PortInvRefl proofs.PortOrd proofs.PortOrdStep.
 
 (* ---- order, at most once ---------------------------------------------------------------- *)
 (* world level: what every subscriber has received from one publisher has strictly increasing
-   send indices (order and at-most-once in one statement); the content is the one sent.  NOT PROVED
-   at world level (needs c02_conservation_full for "the content is not rewritten" and the
-   world-level frame lemmas); the oracle recv_in_order is evaluated at every receive of the tie. *)
-Definition c01_order_once_full : Prop :=
-  forall c h w obs s p, run (world_new c) h = Val (w, obs) ->
+   send indices (order and at-most-once in one statement).  PROVED for every history of API calls
+   of any number of ports (incl. the handler micro-steps inside blocking_send) and every QoS tuple
+   with max_subscribers + history_size + 4 < 2^64, by induction over the history with the order
+   invariant Ord (proofs/PortOrd.v): for every connection, receive log ++ submission queue is
+   strictly increasing and below the publisher's send counter; so is the history; a registered
+   subscriber that is not in an active publisher's table has received nothing from it and its
+   connection is empty (so the history replay at connect time starts a fresh sequence).  Every
+   operation that neither pushes nor pops is shown to leave logs, queues (up to emptying), send
+   counters and histories alone (Neutral); the pushes (send, history replay) and the pop (receive)
+   are treated directly (step_ord).  The oracle recv_in_order is evaluated at every receive of the tie. *)
+Theorem c01_order_once_full :
+  forall c h w obs s p, cfg_fits c -> run (world_new c) h = Val (w, obs) ->
     increasing (map rl_idx (filter (fun r => Nat.eqb (rl_pub r) p) (s_recv (gets w s)))).
+Proof. exact reachable_order_once. Qed.
+Print Assumptions c01_order_once_full.
+
+Theorem c01_order_invariant : forall c w, cfg_fits c -> reachable c w -> Ord w.
+Proof. exact reachable_Ord. Qed.
+Print Assumptions c01_order_invariant.
+
+Theorem c01_order_step : forall w o w' ob, InvR w -> Ord w -> step w o = Val (w', ob) -> Ord w'.
+Proof. exact step_ord. Qed.
+Print Assumptions c01_order_step.
+
+(* a subscriber that joins late (history 2), receives the replay and then a fresh sample *)
+Example c01_order_once_full_nonvacuous :
+  match run (world_new {| cf_S := 2; cf_P := 1; cf_B := 3; cf_M := 3; cf_H := 2; cf_ovf := true; cf_E := 2 |})
+            [OPubCreate 1 false HNone; OSendCopy 0; OSendCopy 0; OSendCopy 0; OSubCreate None None; OPubUpdate 0;
+             OSendCopy 0; ORecv 0; ORecv 0; ORecv 0] with
+  | Val (w, _) => map rl_idx (s_recv (gets w 0)) = [1; 2; 3]
+  | Panic => False
+  end.
+Proof. vm_compute. reflexivity. Qed.
+Print Assumptions c01_order_once_full_nonvacuous.
 
 (* per connection: the send indices in the submission queue increase strictly when every send
    carries a larger index than all before it (the send log only grows), whatever was evicted *)
